@@ -10,6 +10,7 @@
 -/
 import Vita.C06.Decide
 import Vita.C06.Tune
+import Vita.C06.Gen
 set_option linter.unusedSectionVars false
 
 namespace Vita.C06
@@ -288,6 +289,15 @@ example (kind : SearchKind) :
   cases kind <;> decide
 
 end tune
+
+/-- the parameters `is_valid` and the three `tune_parameters` touch in the current sources
+    (Gen.lean, regenerated from the clang AST on every run) are exactly the ones the model covers,
+    plus the six `stat.*` path checks it deliberately leaves out -/
+theorem tune_tables_cover_source :
+    Gen.forcedFields = modelForced ∧
+    Gen.checkedFields = modelChecked ∧ Gen.statFields = notModelledChecked ∧
+    Gen.tunedBase = modelTunedBase ∧ Gen.tunedSrc = modelTunedSrc ∧ Gen.tunedGa = modelTunedGa := by
+  decide
 
 /-! ## (5) whole runs -/
 
